@@ -419,13 +419,30 @@ func main() {
 						ev.ts = base.Add(time.Duration(r.Intn(5000)) * time.Millisecond)
 						eo = append(eo, trace.WithTimestamp(ev.ts))
 					}
+					// the attribute lists are prefixes of a larger array the caller keeps using: an option must not
+					// write behind what it was given
+					var canaries [][]attribute.KeyValue
 					for j := r.Intn(3); j > 0; j-- {
 						kvs := genKVs(r, lim.AttributeValueLengthLimit, r.Intn(5))
 						ev.attrs = append(ev.attrs, kvs...)
-						eo = append(eo, trace.WithAttributes(kvs...))
+						backing := make([]attribute.KeyValue, len(kvs), len(kvs)+3)
+						copy(backing, kvs)
+						rest := backing[len(kvs) : len(kvs)+3]
+						for ci := range rest {
+							rest[ci] = attribute.String("caller-owned", "untouched")
+						}
+						canaries = append(canaries, rest)
+						eo = append(eo, trace.WithAttributes(backing...))
 					}
 					logf("AddEvent(%q, %s)", name, vf.CanonKVs(ev.attrs))
 					span.AddEvent(name, eo...)
+					for _, rest := range canaries {
+						for _, kv := range rest {
+							if kv.Key != "caller-owned" || kv.Value.AsString() != "untouched" {
+								k.Violate("callers-array-written", "AddEvent attribute option", fmt.Sprintf("an element behind the slice passed to WithAttributes now holds %s=%s\nprogram:\n%s", kv.Key, kv.Value.Emit(), strings.Join(prog, "\n")), nil)
+							}
+						}
+					}
 					m.addEvent(ev)
 					opCount["AddEvent"]++
 				case 6:
